@@ -19,7 +19,7 @@ SetFilterAct ==
   /\ ~done /\ nf < MaxFilterSteps
   /\ \E which \in FilterTargets, f \in 0..3 :
        \E ret \in {0, -1} :
-         \E s2 \in {slot, [slot EXCEPT !.filters = ApplyFilter(slot.filters, which, f)],
+         \E s2 \in {slot, [slot EXCEPT !.filters = IF which >= 0 THEN ApplyFilter(slot.filters, which, f) ELSE slot.filters],
                     [slot EXCEPT !.filters = ApplyFilterSeq(slot.filters,
                         CASE which = -1 -> AllTypesSeq [] which = -2 -> CacheTypesSeq
                           [] which = -3 -> ICacheTypesSeq [] which = -4 -> IOTypesSeq [] OTHER -> <<>>, f)]} :
